@@ -8,6 +8,6 @@ echo "== demo on clean tree"; (cd "$d" && PYTHONPATH=/repo/src /venv/bin/python 
 git apply "$d/patch.diff" || { echo "patch does not apply"; exit 2; }
 echo "== demo with the change"; (cd "$d" && PYTHONPATH=/repo/src /venv/bin/python -W ignore demo.py >/dev/null 2>&1; echo "demo exit (seeded) = $?")
 for p in "$@"; do
-  (cd /verif && VERIF_SEED=${VERIF_SEED:-0} ./check "$p" 2>&1 | grep -E "VIOLATION|exit [0-9]" | head -4)
+  (cd /verif && VERIF_SEED=${VERIF_SEED:-0} ./check "$p" 2>&1 | grep -E "VIOLATION|exit [0-9]" | tail -3)
 done
 git checkout -- . ; git status --short | head -2
